@@ -45,4 +45,205 @@ theorem xrunLoop_cancel (x : XTables) (inp : Input) (fin : Int) (stop : Bool) (k
         rw [he]
         exact (xrunLoop_moves x inp fin stop 0 (n + 1) c).evs_suffix
 
+/-! ### the shift counter -/
+
+theorem xdecode_nodeCount {x : XTables} {inp : Input} {c c1 : XCfg} {a : Act}
+    (h : xdecode x inp c = some (c1, a)) : c1.nodeCount = c.nodeCount :=
+  nodeCount_congr (xdecode_evs h)
+
+/-- One pre-step leaves `shiftCounter` alone or increments it; once the context is cancelled
+(`nodeCount ≥ k`), an increment to a multiple of 512 ends the run with `cancelled`. -/
+theorem xpre_sc (x : XTables) (inp : Input) (k : Nat) (c : XCfg)
+    (hc : x.cancellable = true) (hk : k ≠ 0) (hn : c.nodeCount ≥ k) :
+    (xpre x inp k c).cfg.shiftCounter = c.shiftCounter ∨
+      ((xpre x inp k c).cfg.shiftCounter = c.shiftCounter + 1 ∧
+        ((c.shiftCounter + 1) % 512 = 0 → ∃ c', xpre x inp k c = .done .cancelled c')) := by
+  unfold xpre
+  split
+  · exact .inl rfl
+  · next c1 rule h =>
+    left
+    rw [(xreducePre_moves x inp (false, false) c1 rule).shiftCounter_eq, xdecode_shiftCounter h]
+  · next c1 q h =>
+    have hs := xdecode_shiftCounter h
+    have hn1 : c1.nodeCount ≥ k := by rw [xdecode_nodeCount h]; exact hn
+    unfold xshiftPre
+    by_cases hp : x.cancellable = true ∧ pollHit k c1
+    · right
+      rw [if_pos hp]
+      exact ⟨by show c1.shiftCounter + 1 = _; rw [hs], fun _ => ⟨_, rfl⟩⟩
+    · rw [if_neg hp]
+      split
+      · exact .inl hs
+      · right
+        refine ⟨by show (if x.cancellable = true then c1.shiftCounter + 1 else c1.shiftCounter) = _;
+                   rw [if_pos hc, hs], ?_⟩
+        intro hm
+        exact absurd ⟨hc, by rw [hs]; exact hm, hk, hn1⟩ hp
+  · next c1 h =>
+    have hs := xdecode_shiftCounter h
+    have hn1 : c1.nodeCount ≥ k := by rw [xdecode_nodeCount h]; exact hn
+    unfold xerrorPre
+    by_cases hf : failedShift x c1 = true
+    · rw [if_pos hf]
+      by_cases hp : pollHit k c1
+      · right
+        rw [if_pos hp]
+        exact ⟨by show c1.shiftCounter + 1 = _; rw [hs], fun _ => ⟨_, rfl⟩⟩
+      · right
+        rw [if_neg hp]
+        refine ⟨by show c1.shiftCounter + 1 = _; rw [hs], ?_⟩
+        intro hm
+        exact absurd ⟨by rw [hs]; exact hm, hk, hn1⟩ hp
+    · rw [if_neg hf]
+      exact .inl hs
+
+theorem XPre.run_shiftCounter {x : XTables} (inp : Input) (fin : Int) (stop : Bool) (p : XPre) :
+    (p.run (onError x inp fin stop)).cfg.shiftCounter = p.cfg.shiftCounter := by
+  cases p with
+  | cont c => rfl
+  | done r c => rfl
+  | err c => exact (onError_moves inp false fin stop c).shiftCounter_eq
+
+theorem xstep_sc (x : XTables) (inp : Input) (fin : Int) (stop : Bool) (k : Nat) (c : XCfg)
+    (hc : x.cancellable = true) (hk : k ≠ 0) (hn : c.nodeCount ≥ k) :
+    (xstep x inp fin stop k c).cfg.shiftCounter = c.shiftCounter ∨
+      ((xstep x inp fin stop k c).cfg.shiftCounter = c.shiftCounter + 1 ∧
+        ((c.shiftCounter + 1) % 512 = 0 → ∃ c', xstep x inp fin stop k c = .done .cancelled c')) := by
+  rw [xstep_pre, XPre.run_shiftCounter]
+  rcases xpre_sc x inp k c hc hk hn with h | ⟨h, hm⟩
+  · exact .inl h
+  · refine .inr ⟨h, fun h5 => ?_⟩
+    obtain ⟨c', hc'⟩ := hm h5
+    exact ⟨c', by rw [hc']; rfl⟩
+
+theorem xrunLoop_sc_bound (x : XTables) (inp : Input) (fin : Int) (stop : Bool) (k : Nat)
+    (hc : x.cancellable = true) (hk : k ≠ 0) (fuel : Nat) (c : XCfg) (B : Nat)
+    (hB : B % 512 = 0) (hlt : c.shiftCounter < B) (hn : c.nodeCount ≥ k) :
+    (xrunLoop x inp fin stop k fuel c).2.shiftCounter ≤ B ∧
+      ((xrunLoop x inp fin stop k fuel c).2.shiftCounter = B →
+        (xrunLoop x inp fin stop k fuel c).1 = .cancelled) := by
+  induction fuel generalizing c with
+  | zero =>
+    show c.shiftCounter ≤ B ∧ (c.shiftCounter = B → _)
+    exact ⟨Nat.le_of_lt hlt, fun h => absurd h (Nat.ne_of_lt hlt)⟩
+  | succ n ih =>
+    by_cases hfin : c.state = fin
+    · rw [xrunLoop_succ_fin hfin]
+      show c.shiftCounter ≤ B ∧ (c.shiftCounter = B → _)
+      exact ⟨Nat.le_of_lt hlt, fun h => absurd h (Nat.ne_of_lt hlt)⟩
+    · have hsc := xstep_sc x inp fin stop k c hc hk hn
+      have hmv := xstep_moves x inp fin stop k c
+      cases hs : xstep x inp fin stop k c with
+      | cont c' =>
+        rw [hs] at hsc hmv
+        rw [xrunLoop_succ_cont hfin hs]
+        have hn' : c'.nodeCount ≥ k := Nat.le_trans hn (nodeCount_mono hmv.evs_suffix)
+        refine ih c' ?_ hn'
+        rcases hsc with h | ⟨h, hm⟩
+        · show c'.shiftCounter < B
+          have : c'.shiftCounter = c.shiftCounter := h
+          omega
+        · have h' : c'.shiftCounter = c.shiftCounter + 1 := h
+          have hne : (c.shiftCounter + 1) % 512 ≠ 0 := by
+            intro h5
+            obtain ⟨c'', hc''⟩ := hm h5
+            cases hc''
+          show c'.shiftCounter < B
+          have : c.shiftCounter + 1 ≠ B := fun hh => hne (hh ▸ hB)
+          omega
+      | done r c' =>
+        rw [hs] at hsc
+        rw [xrunLoop_succ_done hfin hs]
+        show c'.shiftCounter ≤ B ∧ (c'.shiftCounter = B → r = .cancelled)
+        rcases hsc with h | ⟨h, hm⟩
+        · have : c'.shiftCounter = c.shiftCounter := h
+          exact ⟨by omega, fun hh => by omega⟩
+        · have h' : c'.shiftCounter = c.shiftCounter + 1 := h
+          refine ⟨by omega, fun hh => ?_⟩
+          have h5 : (c.shiftCounter + 1) % 512 = 0 := by rw [← h', hh]; exact hB
+          obtain ⟨c'', hc''⟩ := hm h5
+          cases hc''
+          rfl
+
+/-! ### `cancelled` needs a cancellable parser and `cancelAt ≠ 0` -/
+
+theorem xreduceTail_done {x : XTables} {c2 : XCfg} {rule : Int} {ln : Nat} {lhs : Int} {off endo : Nat}
+    {r : XResult} {c' : XCfg} (h : xreduceTail x c2 rule ln lhs off endo = .done r c') : r = .panic := by
+  unfold xreduceTail at h
+  repeat' split at h
+  all_goals first | (cases h; rfl) | cases h
+
+theorem xreducePre_done {x : XTables} {inp : Input} {c1 : XCfg} {rule : Int}
+    {r : XResult} {c' : XCfg} (h : xreducePre x inp c1 rule = .done r c') : r = .panic := by
+  unfold xreducePre at h
+  split at h
+  · split at h
+    · cases h; rfl
+    · split at h
+      · exact xreduceTail_done h
+      · exact xreduceTail_done h
+  · cases h; rfl
+
+theorem failedShift_cancellable {x : XTables} {c1 : XCfg} (h : failedShift x c1 = true) :
+    x.cancellable = true := by
+  unfold failedShift at h
+  simp only [Bool.and_eq_true] at h
+  exact h.1.1
+
+theorem xpre_cancelled {x : XTables} {inp : Input} {k : Nat} {c c' : XCfg}
+    (h : xpre x inp k c = .done .cancelled c') : x.cancellable = true ∧ k ≠ 0 := by
+  unfold xpre at h
+  split at h
+  · cases h
+  · cases xreducePre_done h
+  · unfold xshiftPre at h
+    split at h
+    · next hp => exact ⟨hp.1, hp.2.2.1⟩
+    · split at h <;> cases h
+  · unfold xerrorPre at h
+    split at h
+    · next hf =>
+      split at h
+      · next hp => exact ⟨failedShift_cancellable hf, hp.2.1⟩
+      · cases h
+    · cases h
+
+theorem onError_ne_cancelled {x : XTables} (inp : Input) (fin : Int) (stop : Bool) (c c' : XCfg) :
+    onError x inp fin stop c ≠ .done .cancelled c' := by
+  intro h
+  cases hr : x.recovering
+  · rw [onError_eq_norec inp fin stop c hr] at h; cases h
+  · rw [onError_eq_rec inp fin stop c hr] at h
+    split at h
+    · cases h
+    · split at h <;> cases h
+
+theorem xstep_cancelled {x : XTables} {inp : Input} {fin : Int} {stop : Bool} {k : Nat} {c c' : XCfg}
+    (h : xstep x inp fin stop k c = .done .cancelled c') : x.cancellable = true ∧ k ≠ 0 := by
+  rw [xstep_pre] at h
+  cases hp : xpre x inp k c with
+  | cont c1 => rw [hp] at h; cases h
+  | done r c1 =>
+    rw [hp] at h
+    cases h
+    exact xpre_cancelled hp
+  | err c1 => rw [hp] at h; exact absurd h (onError_ne_cancelled inp fin stop c1 c')
+
+theorem xrunLoop_cancelled {x : XTables} {inp : Input} {fin : Int} {stop : Bool} {k : Nat} (fuel : Nat)
+    (c : XCfg) (h : (xrunLoop x inp fin stop k fuel c).1 = .cancelled) :
+    x.cancellable = true ∧ k ≠ 0 := by
+  induction fuel generalizing c with
+  | zero => cases h
+  | succ n ih =>
+    by_cases hfin : c.state = fin
+    · rw [xrunLoop_succ_fin hfin] at h; cases h
+    · cases hs : xstep x inp fin stop k c with
+      | cont c' => rw [xrunLoop_succ_cont hfin hs] at h; exact ih c' h
+      | done r c' =>
+        rw [xrunLoop_succ_done hfin hs] at h
+        have : r = .cancelled := h
+        subst this
+        exact xstep_cancelled hs
+
 end TmVerif.LRX
